@@ -94,6 +94,8 @@ type callEdge struct {
 	freshRecv *types.Var // receiver is a freshly allocated local object (construct-phase call if before its escape)
 	construct bool
 	fd        *funcInfo
+	call      *ast.CallExpr // the call expression (nil for calls through slots)
+	from      *node
 }
 
 type slotCall struct {
@@ -130,11 +132,9 @@ type locInfo struct {
 type freshInfo struct {
 	v       *types.Var
 	declPos token.Pos
-	esc     token.Pos // first escape (loop adjusted); NoPos = never
-	casOnly bool      // every escaping use is the new-value argument of CompareAndSwap/Store on casLoc
-	casLoc  string
-	casUses []*ast.CallExpr // the publishing calls
-	bad     bool
+	bad     bool        // assigned again after its definition: not tracked
+	viaCall *types.Func // defined as the result of a call of this (returns-fresh) constructor function
+	track   *objTrack   // the flow analysis of the object (objflow.go)
 }
 
 // per top-level function
@@ -153,6 +153,11 @@ type funcInfo struct {
 	// closures bound to a local variable that is only ever called directly, from code that runs inline in the
 	// declaring function: they run on the declaring goroutine
 	inlineLocal map[*ast.FuncLit]bool
+	// those of them that are (also) passed to Broadcast.HoldLock / TryHoldLock / Wait: their function-typed parameters
+	// are the broadcast / getWaitCh functions of a lock callback
+	lockCbLocal map[*ast.FuncLit]bool
+	node        *node
+	obj         *types.Func
 }
 
 type residual struct {
@@ -167,6 +172,14 @@ type scanner struct {
 	nodes    []*node
 	funcNode map[*types.Func]*node
 	funcs    []*funcInfo
+	fdOfFunc map[*types.Func]*funcInfo
+	fdOfNode map[*node]*funcInfo
+
+	// objflow.go
+	retFresh     map[*types.Func]int // 0 unknown, 1 being computed, 2 candidate, 3 no
+	helperVisits map[ast.Node][]helperVisit
+	descents     map[*node]map[*ast.CallExpr]bool
+	incoming     map[*node][]*callEdge
 
 	flowNodes map[*types.Var][]*node      // closures that flow directly into a slot
 	flowSlots map[*types.Var][]*types.Var // slot -> slots whose content flows into it
@@ -378,23 +391,6 @@ func (w *walker) recordVar(v *types.Var, id ast.Node, write bool, p token.Pos, h
 	a := &access{loc: key, write: write, pos: p, effPos: w.pos(p), held: effHeld(held, write), n: w.cur, own: own, construct: construct, v: v, expr: id, fd: w.fd}
 	li.accs = append(li.accs, a)
 	w.cur.accs = append(w.cur.accs, a)
-	// a fresh object referenced from inside a closure has escaped
-	if fi := w.fd.fresh[v]; fi != nil && len(out) > 0 {
-		w.freshEscape(fi, loopAdjust(out[0].lit.Pos(), out[0].loops, fi.declPos), "")
-	}
-}
-
-func (w *walker) freshEscape(fi *freshInfo, p token.Pos, casLoc string) {
-	if fi.esc == token.NoPos || p < fi.esc {
-		fi.esc = p
-	}
-	if casLoc == "" {
-		fi.casOnly = false
-	} else if fi.casLoc == "" {
-		fi.casLoc = casLoc
-	} else if fi.casLoc != casLoc {
-		fi.casOnly = false
-	}
 }
 
 func (w *walker) fieldKey(x *ast.SelectorExpr, sel *types.Selection) string {
@@ -672,6 +668,9 @@ func (w *walker) closure(fl *ast.FuncLit, why string) *node {
 	n.isLit = true
 	sub := &walker{sc: w.sc, fd: w.fd, info: w.info, cur: n, deferHeld: set{}}
 	il := w.fd.inlineLocal[fl]
+	if w.fd.lockCbLocal[fl] {
+		w.markBcastParams(fl)
+	}
 	if il {
 		// runs when called, not where it is written: never "before the first escape"
 		sub.posOverride = w.fd.end
@@ -698,6 +697,20 @@ func (w *walker) inline(fl *ast.FuncLit, held set, deferred bool) {
 	w.frames, w.deferHeld, w.posOverride, w.namedRes = saveFrames, saveDefer, savePos, saveRes
 }
 
+// the function-typed parameters of a lock callback are the broadcast / getWaitCh functions of the Broadcast contract
+func (w *walker) markBcastParams(fl *ast.FuncLit) {
+	if fl.Type.Params == nil {
+		return
+	}
+	for _, f := range fl.Type.Params.List {
+		for _, nm := range f.Names {
+			if v, ok := w.info.Defs[nm].(*types.Var); ok && isFuncType(v.Type()) {
+				w.sc.bcastArgs[v] = true
+			}
+		}
+	}
+}
+
 func (w *walker) declParams(ft *ast.FuncType) {
 	decl := func(fl *ast.FieldList, res bool) {
 		if fl == nil {
@@ -720,11 +733,11 @@ func (w *walker) declParams(ft *ast.FuncType) {
 
 var lockClosureMethods = map[string]bool{"HoldLock": true, "TryHoldLock": true, "HoldLockMaybeAsync": true, "Wait": true}
 
-func (w *walker) addCall(callee *node, held set, pos token.Pos, fresh *types.Var) {
+func (w *walker) addCall(callee *node, held set, pos token.Pos, fresh *types.Var, call *ast.CallExpr) {
 	if callee == nil {
 		return
 	}
-	w.cur.calls = append(w.cur.calls, &callEdge{callee: callee, held: effHeld(held, true), pos: pos, freshRecv: fresh, fd: w.fd})
+	w.cur.calls = append(w.cur.calls, &callEdge{callee: callee, held: effHeld(held, true), pos: pos, freshRecv: fresh, fd: w.fd, call: call, from: w.cur})
 }
 
 func (w *walker) addSlotCall(s *types.Var, held set, pos token.Pos) {
@@ -746,13 +759,7 @@ func (w *walker) call(c *ast.CallExpr, held set) {
 							n := w.closure(fl, "maybeasync")
 							n.assume = effHeld(h, true)
 						} else {
-							for _, f := range fl.Type.Params.List {
-								for _, nm := range f.Names {
-									if v, ok := w.info.Defs[nm].(*types.Var); ok && isFuncType(v.Type()) {
-										w.sc.bcastArgs[v] = true
-									}
-								}
-							}
+							w.markBcastParams(fl)
 							w.inline(fl, h, false)
 						}
 					} else if s := w.slotOf(a); s != nil && isFuncType(w.info.TypeOf(a)) {
@@ -763,7 +770,7 @@ func (w *walker) call(c *ast.CallExpr, held set) {
 							w.addSlotCall(s, h, a.Pos())
 						}
 					} else if n, ok := w.funcValue(a); ok {
-						w.addCall(n, h, a.Pos(), nil)
+						w.addCall(n, h, a.Pos(), nil, nil)
 					} else {
 						w.expr(a, held)
 					}
@@ -778,6 +785,13 @@ func (w *walker) call(c *ast.CallExpr, held set) {
 			if fl, ok := ast.Unparen(c.Args[0]).(*ast.FuncLit); ok {
 				w.syncUse(se.X, held)
 				w.inline(fl, held, false)
+				return
+			}
+			if s := w.slotOf(c.Args[0]); s != nil && w.isLocalVar(s) {
+				// a closure bound to a local variable: called here, synchronously, with the locks held here
+				w.syncUse(se.X, held)
+				w.readSlotExpr(c.Args[0], held)
+				w.addSlotCall(s, held, c.Args[0].Pos())
 				return
 			}
 		}
@@ -905,15 +919,10 @@ func (w *walker) call(c *ast.CallExpr, held set) {
 		}
 	}
 	if callee != nil {
-		w.addCall(callee, held, c.Pos(), fresh)
+		w.addCall(callee, held, c.Pos(), fresh, c)
 	}
 	if viaSlot != nil {
 		w.addSlotCall(viaSlot, held, c.Pos())
-	}
-	// atomic publication: S.CompareAndSwap(old, x) / S.Store(x) with x a fresh local object
-	casLoc := ""
-	if se, ok := fun.(*ast.SelectorExpr); ok && (se.Sel.Name == "CompareAndSwap" || se.Sel.Name == "Store") {
-		casLoc = w.syncLoc(se.X)
 	}
 	for i, a := range c.Args {
 		a = ast.Unparen(a)
@@ -927,16 +936,6 @@ func (w *walker) call(c *ast.CallExpr, held set) {
 			}
 		}
 		t := w.info.TypeOf(a)
-		if casLoc != "" && i == len(c.Args)-1 {
-			if id, ok := a.(*ast.Ident); ok {
-				if v, ok := w.info.Uses[id].(*types.Var); ok && w.fd.fresh[v] != nil {
-					w.recordVarNoEscape(v, id, held)
-					w.freshEscape(w.fd.fresh[v], loopAdjust(id.Pos(), w.loops, w.fd.fresh[v].declPos), casLoc)
-					w.fd.fresh[v].casUses = append(w.fd.fresh[v].casUses, c)
-					continue
-				}
-			}
-		}
 		if _, isLit := a.(*ast.FuncLit); isLit || (t != nil && isFuncType(t)) {
 			if id, ok := a.(*ast.Ident); ok && id.Name == "nil" {
 				continue
@@ -949,7 +948,7 @@ func (w *walker) call(c *ast.CallExpr, held set) {
 						w.baseExpr(se.X, held)
 					}
 					if n != nil {
-						w.addCall(n, held, a.Pos(), nil)
+						w.addCall(n, held, a.Pos(), nil, nil)
 						w.sc.trustedArgs = append(w.sc.trustedArgs, fmt.Sprintf("%s at %s", n.name, w.sc.posStr(a.Pos())))
 					}
 					continue
@@ -977,16 +976,6 @@ func (w *walker) call(c *ast.CallExpr, held set) {
 	}
 }
 
-// an identifier use of a fresh object that is not an escape by itself
-func (w *walker) recordVarNoEscape(v *types.Var, id *ast.Ident, held set) {
-	fi := w.fd.fresh[v]
-	esc, cas, cl := fi.esc, fi.casOnly, fi.casLoc
-	w.recordVar(v, id, false, id.Pos(), held, false)
-	if len(w.framesOutside(v)) == 0 {
-		fi.esc, fi.casOnly, fi.casLoc = esc, cas, cl
-	}
-}
-
 // expr walks an expression that is read.
 func (w *walker) expr(e ast.Expr, held set) {
 	switch x := e.(type) {
@@ -994,9 +983,6 @@ func (w *walker) expr(e ast.Expr, held set) {
 	case *ast.Ident:
 		if v, ok := w.info.Uses[x].(*types.Var); ok && w.isLocalVar(v) {
 			w.recordVar(v, x, false, x.Pos(), held, false)
-			if fi := w.fd.fresh[v]; fi != nil {
-				w.freshEscape(fi, loopAdjust(x.Pos(), w.loops, fi.declPos), "")
-			}
 			if isFuncType(v.Type()) {
 				w.sc.escapeSlot(v, x.Pos())
 			}
@@ -1600,6 +1586,7 @@ func (w *walker) goStmt(g *ast.GoStmt, held set) {
 		if e.pos == c.Pos() {
 			e.held = set{}
 			e.freshRecv = nil
+			e.from = gn
 			gn.calls = append(gn.calls, e)
 		} else {
 			saved.calls = append(saved.calls, e)
@@ -1632,45 +1619,131 @@ func buildParents(root ast.Node) map[ast.Node]ast.Node {
 	return parents
 }
 
-// freshCandidates: local variables defined once as &T{...} / new(T) with T a struct of the scanned packages
+// freshCandidates: local variables that hold a freshly allocated object of a struct type of the scanned packages from
+// their (single) definition on:   v := &T{...}   v := new(T)   v := T{...}   var v T   var v = &T{...}   and
+// v := f(...) where f is a function of the scanned files that returns a fresh object on every path (returnsFresh).
+// What happens to the object afterwards (construction phase until the first escape, publication by an atomic
+// operation) is decided by the flow analysis of objflow.go, not by the shape of the statements.
 func (sc *scanner) freshCandidates(fi *funcInfo) {
 	info := fi.pkg.TypesInfo
-	ast.Inspect(fi.decl.Body, func(n ast.Node) bool {
-		as, ok := n.(*ast.AssignStmt)
-		if !ok || as.Tok != token.DEFINE || len(as.Lhs) != len(as.Rhs) {
-			return true
+	add := func(id *ast.Ident, rhs ast.Expr, end token.Pos) {
+		v, ok := info.Defs[id].(*types.Var)
+		if !ok || id.Name == "_" || !sc.scannedStruct(v.Type()) {
+			return
 		}
-		for i, l := range as.Lhs {
-			id, ok := l.(*ast.Ident)
+		if pt, isPtr := v.Type().(*types.Pointer); isPtr {
+			if _, twice := pt.Elem().(*types.Pointer); twice {
+				return
+			}
+		}
+		var via *types.Func
+		if rhs != nil {
+			ok, f := sc.allocExpr(info, rhs)
 			if !ok {
-				continue
+				return
 			}
-			v, ok := info.Defs[id].(*types.Var)
-			if !ok {
-				continue
+			via = f
+		} else if _, isPtr := v.Type().(*types.Pointer); isPtr {
+			return // var v *T: nil
+		}
+		fi.fresh[v] = &freshInfo{v: v, declPos: end, viaCall: via}
+	}
+	ast.Inspect(fi.decl.Body, func(n ast.Node) bool {
+		switch x := n.(type) {
+		case *ast.AssignStmt:
+			if x.Tok != token.DEFINE || len(x.Lhs) != len(x.Rhs) {
+				return true
 			}
-			isFresh := false
-			switch r := ast.Unparen(as.Rhs[i]).(type) {
-			case *ast.UnaryExpr:
-				if _, ok := ast.Unparen(r.X).(*ast.CompositeLit); ok && r.Op == token.AND {
-					isFresh = true
+			for i, l := range x.Lhs {
+				if id, ok := l.(*ast.Ident); ok {
+					add(id, x.Rhs[i], x.End())
 				}
-			case *ast.CallExpr:
-				if fid, ok := r.Fun.(*ast.Ident); ok && fid.Name == "new" {
-					isFresh = true
+			}
+		case *ast.DeclStmt:
+			gd, ok := x.Decl.(*ast.GenDecl)
+			if !ok || gd.Tok != token.VAR {
+				return true
+			}
+			for _, sp := range gd.Specs {
+				vs, ok := sp.(*ast.ValueSpec)
+				if !ok {
+					continue
 				}
-			}
-			if !isFresh {
-				continue
-			}
-			if nt, ok := deref(v.Type()).(*types.Named); ok && nt.Obj().Pkg() != nil && sc.pkgPaths[nt.Obj().Pkg().Path()] {
-				if _, ok := nt.Underlying().(*types.Struct); ok {
-					fi.fresh[v] = &freshInfo{v: v, declPos: as.End(), casOnly: true}
+				for i, nm := range vs.Names {
+					switch {
+					case len(vs.Values) == 0:
+						add(nm, nil, x.End())
+					case len(vs.Values) == len(vs.Names):
+						add(nm, vs.Values[i], x.End())
+					}
 				}
 			}
 		}
 		return true
 	})
+}
+
+// a (pointer to a) named struct type declared in the scanned packages
+func (sc *scanner) scannedStruct(t types.Type) bool {
+	nt, ok := deref(t).(*types.Named)
+	if !ok || nt.Obj().Pkg() == nil || !sc.pkgPaths[nt.Obj().Pkg().Path()] {
+		return false
+	}
+	_, ok = nt.Underlying().(*types.Struct)
+	return ok
+}
+
+// allocExpr: e evaluates to a freshly allocated object nobody else can reach: &T{...}, T{...}, new(T), or a call of
+// a returns-fresh function (which is then returned too)
+func (sc *scanner) allocExpr(info *types.Info, e ast.Expr) (bool, *types.Func) {
+	switch r := ast.Unparen(e).(type) {
+	case *ast.CompositeLit:
+		return true, nil
+	case *ast.UnaryExpr:
+		if _, ok := ast.Unparen(r.X).(*ast.CompositeLit); ok && r.Op == token.AND {
+			return true, nil
+		}
+	case *ast.CallExpr:
+		if fid, ok := r.Fun.(*ast.Ident); ok {
+			if b, isB := info.Uses[fid].(*types.Builtin); isB && b.Name() == "new" {
+				return true, nil
+			}
+		}
+		if f := staticCallee(info, r); f != nil && sc.returnsFresh(f) {
+			return true, f
+		}
+	}
+	return false, nil
+}
+
+// staticCallee: the function or method a call expression calls directly (nil for calls through values / interfaces)
+func staticCallee(info *types.Info, c *ast.CallExpr) *types.Func {
+	fun := ast.Unparen(c.Fun)
+	switch f := fun.(type) {
+	case *ast.IndexExpr:
+		fun = ast.Unparen(f.X)
+	case *ast.IndexListExpr:
+		fun = ast.Unparen(f.X)
+	}
+	switch f := fun.(type) {
+	case *ast.Ident:
+		if o, ok := info.Uses[f].(*types.Func); ok {
+			return o.Origin()
+		}
+	case *ast.SelectorExpr:
+		if sel := info.Selections[f]; sel != nil {
+			if sel.Kind() != types.MethodVal {
+				return nil
+			}
+			if _, isIface := sel.Recv().Underlying().(*types.Interface); isIface {
+				return nil
+			}
+		}
+		if o, ok := info.Uses[f.Sel].(*types.Func); ok {
+			return o.Origin()
+		}
+	}
+	return nil
 }
 
 // syntactically inline literals: immediately invoked, deferred, the body of HoldLock / TryHoldLock / Wait on a Broadcast,
@@ -1684,18 +1757,28 @@ func syntacticInline(info *types.Info, parents map[ast.Node]ast.Node, fl *ast.Fu
 		_, isGo := parents[c].(*ast.GoStmt)
 		return !isGo
 	}
+	return syncCallbackCall(info, c) != ""
+}
+
+// syncCallbackCall: c is a call of a function that runs its callback argument synchronously on the calling goroutine
+// before it returns: "lock" for Broadcast.HoldLock / TryHoldLock / Wait (the callback runs under the Broadcast's lock),
+// "once" for sync.Once.Do, "" otherwise (HoldLockMaybeAsync may run it on another goroutine)
+func syncCallbackCall(info *types.Info, c *ast.CallExpr) string {
 	se, ok := c.Fun.(*ast.SelectorExpr)
 	if !ok {
-		return false
+		return ""
 	}
 	t := info.TypeOf(se.X)
 	if t == nil {
-		return false
+		return ""
 	}
 	if lockClosureMethods[se.Sel.Name] && se.Sel.Name != "HoldLockMaybeAsync" && isBroadcast(t) {
-		return true
+		return "lock"
 	}
-	return se.Sel.Name == "Do" && typeName(t) == "sync.Once"
+	if se.Sel.Name == "Do" && len(c.Args) == 1 && typeName(t) == "sync.Once" {
+		return "once"
+	}
+	return ""
 }
 
 func (sc *scanner) inlineLocals(fi *funcInfo) {
@@ -1739,6 +1822,7 @@ func (sc *scanner) inlineLocals(fi *funcInfo) {
 		return true
 	})
 	cand := map[*types.Var]*ast.FuncLit{}
+	lockArg := map[*types.Var]bool{}
 	for v, ls := range bind {
 		if len(ls) == 1 && ls[0] != nil {
 			cand[v] = ls[0]
@@ -1764,9 +1848,24 @@ func (sc *scanner) inlineLocals(fi *funcInfo) {
 				return true
 			}
 			good := false
-			if c, ok := fi.parents[id].(*ast.CallExpr); ok && c.Fun == ast.Expr(id) {
-				if _, isGo := fi.parents[c].(*ast.GoStmt); !isGo {
+			if c, ok := fi.parents[id].(*ast.CallExpr); ok {
+				_, isGo := fi.parents[c].(*ast.GoStmt)
+				switch {
+				case isGo:
+					// `go f()` and `go b.HoldLock(f)`: f runs on another goroutine
+				case c.Fun == ast.Expr(id):
 					good = true
+				case syncCallbackCall(info, c) != "":
+					// handed, in call position, to a function that invokes its callback synchronously on the calling
+					// goroutine: the same functions whose literal arguments run inline (syntacticInline)
+					for _, a := range c.Args {
+						if ast.Unparen(a) == ast.Expr(id) {
+							good = true
+						}
+					}
+					if good && syncCallbackCall(info, c) == "lock" {
+						lockArg[v] = true
+					}
 				}
 			}
 			for p := fi.parents[ast.Node(id)]; p != nil && good; p = fi.parents[p] {
@@ -1785,17 +1884,17 @@ func (sc *scanner) inlineLocals(fi *funcInfo) {
 			return true
 		})
 	}
-	for _, fl := range cand {
+	for v, fl := range cand {
 		fi.inlineLocal[fl] = true
+		if lockArg[v] {
+			fi.lockCbLocal[fl] = true
+		}
 	}
 }
 
-func (sc *scanner) scanPackage(p *packages.Package) {
-	type job struct {
-		fi *funcInfo
-		n  *node
-	}
-	var jobs []job
+// declare registers the functions of the scanned files of p (phase 1: before any body is walked, so that summaries
+// of callees - returns-fresh constructors, helpers that receive a fresh object - are available for every caller)
+func (sc *scanner) declare(p *packages.Package) {
 	for _, f := range p.Syntax {
 		fname := sc.fset.Position(f.Pos()).Filename
 		if !sc.inScope[fname] {
@@ -1823,21 +1922,25 @@ func (sc *scanner) scanPackage(p *packages.Package) {
 			}
 			sc.funcNode[obj] = n
 			fi := &funcInfo{decl: fd, name: name, pkg: p, fresh: map[*types.Var]*freshInfo{}, loadDef: map[*types.Var]string{},
-				assigned: map[*types.Var]int{}, varEsc: map[*types.Var]token.Pos{}, varNames: map[*types.Var]string{}, nameCnt: map[string]int{}, end: fd.End(), inlineLocal: map[*ast.FuncLit]bool{}}
+				assigned: map[*types.Var]int{}, varEsc: map[*types.Var]token.Pos{}, varNames: map[*types.Var]string{}, nameCnt: map[string]int{}, end: fd.End(),
+				inlineLocal: map[*ast.FuncLit]bool{}, lockCbLocal: map[*ast.FuncLit]bool{}, node: n, obj: obj}
+			fi.parents = buildParents(fd)
 			sc.funcs = append(sc.funcs, fi)
-			jobs = append(jobs, job{fi, n})
+			sc.fdOfFunc[obj] = fi
+			sc.fdOfNode[n] = fi
 			sc.nFuncs++
 		}
 	}
-	for _, j := range jobs {
-		j.fi.parents = buildParents(j.fi.decl)
-		sc.freshCandidates(j.fi)
-		sc.inlineLocals(j.fi)
-		w := &walker{sc: sc, fd: j.fi, info: p.TypesInfo, cur: j.n, deferHeld: set{}}
-		if j.fi.decl.Recv != nil {
-			w.declParams(&ast.FuncType{Params: j.fi.decl.Recv})
-		}
-		w.declParams(j.fi.decl.Type)
-		w.block(j.fi.decl.Body.List, set{})
+}
+
+// scanFunc walks one function body (phase 2)
+func (sc *scanner) scanFunc(fi *funcInfo) {
+	sc.freshCandidates(fi)
+	sc.inlineLocals(fi)
+	w := &walker{sc: sc, fd: fi, info: fi.pkg.TypesInfo, cur: fi.node, deferHeld: set{}}
+	if fi.decl.Recv != nil {
+		w.declParams(&ast.FuncType{Params: fi.decl.Recv})
 	}
+	w.declParams(fi.decl.Type)
+	w.block(fi.decl.Body.List, set{})
 }
